@@ -1,4 +1,5 @@
 """C04 - disjunctions and defaults follow the value/default-pair rules of the spec."""
+import os
 import vlib
 from checks import _core
 
@@ -27,6 +28,15 @@ def plausible(a, m):
     return False
 
 
+def _replay_kind(ctx):
+    import json
+    try:
+        payload = json.load(open(ctx.replay))
+        return payload.get("payload", payload).get("kind")
+    except Exception:
+        return None
+
+
 def run(ctx):
     quick = ctx.tier == "quick"
     proof = vlib.prove("C04", extra_targets=["theories/Extract/Core.vo"])
@@ -37,6 +47,8 @@ def run(ctx):
     harness, exe, hsecs = _core.build()
     known = {k["id"]: k for k in vlib.known_findings("C04") if k.get("status") == "known"}
     n = 12000 if quick else 300000
+    if ctx.replay and _replay_kind(ctx) == C04X_KIND:  # a recorded exploration case: only the stream c04x re-runs it
+        n = 0
     cases, impl, model, src, meta = _core.run_mode(ctx, harness, exe, "c04", n)
     mism = viol = 0
     outcomes = {}
@@ -73,23 +85,133 @@ def run(ctx):
     if f2_hits:
         ctx.known_finding("F2: %d generated expressions in the fold-sensitive class (a marked disjunct eliminated late, or conflicting defaults) resolve differently from the order-free spec answer" % f2_hits if False else
                           "F2: generated expressions in the fold-sensitive class (a marked disjunct eliminated late, or conflicting defaults) resolve differently from the order-free spec answer")
+    # EXPLORATION stream c04x (impl vs impl, NOT covered by the theorems' model): nested / struct-valued
+    # disjuncts (harness/core/disjx.go) compared with order / duplicate / failed-disjunct rearrangements
+    explo = run_c04x(ctx, harness, quick, known)
     ctx.coverage.update({
+        "exploration_c04x": explo,
         "obligations": proof["obligations"], "discharged": proof["discharged"],
         "checker_cmd": proof["checker_cmd"] + ("; coqchk -silent -o Verif.Properties.C04" if not quick else ""),
         "trusted_base": _core.CORE_TRUSTED + ["the left fold of cue's crossProduct (leftDropsDefault/rightDropsDefault, priorities) is NOT modelled; deviations from the order-free spec are recognised by the model-side predicate fold_sensitive"],
         "theorems": proof["theorems"], "axioms_reported": proof["axioms"],
         "evaluations": len(cases), "distinct_nontrivial": nontrivial,
         "rule": "conjunctions of 0-2 plain operands and 1-3 flat disjunctions of 1-3 disjuncts (atoms, basic types, bounds, small structs with regular fields), marks: none / one / several per disjunction, duplicates frequent; observables: resolution (chosen value / ambiguous / no value), value of the choice, acceptance of 11 probe atoms. non-trivial = distinct case with a mark whose value is not bottom",
-        "samples": [{"program": src[i], "impl": impl[i], "model": model[i]} for i in (0, min(20, len(src) - 1))],
+        "samples": [{"program": src[i], "impl": impl[i], "model": model[i]} for i in (0, min(20, len(src) - 1))] if n else [],
         "outcomes": outcomes, "fold_sensitive_cases": sens, "mismatches": mism, "mismatches_in_known_class_F2": f2_hits,
         "violations_found": viol, "harness_build_s": hsecs,
     })
     ctx.assumptions.extend(_core.CORE_TRUSTED)
 
 
+C04X_KIND = "rearrangement-of-disjuncts-changes-outcome (exploration)"
+
+# Witness pairs of finding F18 (design/Core.md, proposed in design/C04x.findings.json): the same disjuncts, reordered.
+# Evaluated on every run before the generated expressions.  A KNOWN-FINDING line is printed only while a pair
+# disagrees AND the id is listed as `known` in known_findings.json; the generator stays out of the class either way.
+F18_PAIRS = [
+    ("a-inner-order-blocks-merge", "x: {a: 1 | 3} | {a: 1 | 3}\n", "x: {a: 1 | 3} | {a: 3 | 1}\n"),
+    ("a-inner-order-blocks-merge-list", "x: [1 | 3] | [1 | 3]\n", "x: [1 | 3] | [3 | 1]\n"),
+    ("b-first-twin-decides-nested-default", "x: {a: *1 | 3} | {a: 1 | 3}\n", "x: {a: 1 | 3} | {a: *1 | 3}\n"),
+    ("b-first-twin-decides-nested-default-list", "x: [*1 | 3] | [1 | 3]\n", "x: [1 | 3] | [*1 | 3]\n"),
+]
+
+
+# Witness pairs of finding F19 (design/Core.md, proposed in design/C04x.findings.json; found by hand while following a
+# side remark of seeded/c04-2/README.txt, NOT in the generated fragment: the expression has TWO disjunction operands).
+# Same protocol as F18.  The probes make the lost acceptance visible in the language.
+F19_PROBES = ["{a: 1, b: 1}", "{a: 3, b: 1}", "{a: 3, b: 2}", "{a: 4, b: 2}", "{a: 2, b: 1}", "[3]", "[1]"]
+F19_PAIRS = [
+    ("later-disjunct-dropped", "x: ({a: 1 | 2} | {a: 3 | 4}) & ({b: 1} | {b: 2})\n", "x: ({a: 3 | 4} | {a: 1 | 2}) & ({b: 1} | {b: 2})\n"),
+    ("later-disjunct-dropped-same-width", "x: ({a: 1 | 2} | {a: 1 | 3}) & ({b: 1} | {b: 2})\n", "x: ({a: 1 | 3} | {a: 1 | 2}) & ({b: 1} | {b: 2})\n"),
+    ("later-disjunct-dropped-failing-second", "x: ({a: 1 | 2} | {a: 1 | 3}) & ({b: 1} | 7)\n", "x: ({a: 1 | 3} | {a: 1 | 2}) & ({b: 1} | 7)\n"),
+    ("later-disjunct-dropped-list", "x: ([1 | 2] | [1 | 3]) & ([_] | [int])\n", "x: ([1 | 3] | [1 | 2]) & ([_] | [int])\n"),
+]
+
+
+def run_witness_pairs(ctx, harness, known, fid, pairs, probes, what):
+    import json
+    d = os.path.join(ctx.work, "c04x-" + fid.lower())
+    os.makedirs(d, exist_ok=True)
+    rc = os.path.join(d, "pairs.json")
+    json.dump([{"name": nm, "expr": a, "variant": b, "probes": probes or []} for nm, a, b in pairs], open(rc, "w"))
+    vlib.run([harness, "--mode", "c04x", "--out", d, "--replay-cases", rc], timeout=600)
+    rep = json.load(open(os.path.join(d, "report.json")))
+    bad = [c for c in rep.get("evaluated") or [] if c.get("differs_raw")]
+    listed = fid in known
+    if bad and listed:
+        w = bad[0]
+        ctx.known_finding("%s (c04x witness pairs, %d of %d disagree: %s): %s, e.g. `%s` evaluates to %s (accepts %s) but `%s` to %s (accepts %s)"
+                          % (fid, len(bad), len(pairs), ", ".join(c.get("name", "?") for c in bad), what, w["expr"].strip(),
+                             w["obs_a"]["disjuncts"], w["obs_a"]["accepts"], w["variant"].strip(), w["obs_b"]["disjuncts"], w["obs_b"]["accepts"]))
+    return {"pairs": len(pairs), "disagreeing": len(bad), "disagreeing_names": [c.get("name") for c in bad],
+            "listed_in_known_findings": listed}
+
+
+def run_c04x(ctx, harness, quick, known):
+    """Exploration (no model, no theorem): expressions of harness/core/disjx.go, each with 6 rearrangements that
+    Properties/C04.v says preserve the outcome (disjunct order, duplicates, weaker copies, failed disjuncts).
+    The four observations must be equal.  At most 5 replays."""
+    import json
+    import time
+    f18 = run_witness_pairs(ctx, harness, known, "F18", F18_PAIRS, None,
+                            "reordering disjuncts changes the outcome when struct/list disjuncts hold a nested disjunction")
+    f19 = run_witness_pairs(ctx, harness, known, "F19", F19_PAIRS, F19_PROBES,
+                            "a struct/list disjunct holding a nested disjunction is dropped when a second disjunction operand follows")
+    d = os.path.join(ctx.work, "c04x")
+    os.makedirs(d, exist_ok=True)
+    args = [harness, "--mode", "c04x", "--seed", str(ctx.seed), "--out", d, "--max-replays", "5"]
+    if ctx.replay:
+        payload = json.load(open(ctx.replay))
+        payload = payload.get("payload", payload)
+        if payload.get("kind") != C04X_KIND:
+            return {"skipped": "replay of another stream", "F18_witness_pairs": f18, "F19_witness_pairs": f19}
+        rc = os.path.join(d, "replay-cases.json")
+        json.dump([{"expr": payload["expr"], "variant": payload["variant"], "probes": payload.get("probes") or []}], open(rc, "w"))
+        args += ["--replay-cases", rc]
+    else:
+        args += ["--n", str(1500 if quick else 40000), "--k", "6"]
+    t0 = time.time()
+    vlib.run(args, timeout=3000)
+    secs = round(time.time() - t0, 1)
+    rep = json.load(open(os.path.join(d, "report.json")))
+    for dis in (rep.get("disagreements") or [])[:5]:
+        ctx.violation({"kind": C04X_KIND, "expr": dis["expr"], "variant": dis["variant"],
+                       "obs_a": dis["obs_a"], "obs_b": dis["obs_b"], "probes": dis.get("probes"),
+                       "rearrangement": dis.get("rearrangement"), "shrunk": dis.get("shrunk"),
+                       "expr_before_shrinking": dis.get("expr_before_shrinking"), "features": dis.get("features"),
+                       "note": "obs = resolution after iterating Default() (CHOSEN value / AMBIG / NOVALUE), Validate(Concrete), "
+                               "the sorted set of disjuncts of the evaluated value (* = default), acceptance bits of the probes "
+                               "computed in the language as (expr) & probe"})
+    feats = rep.get("features", {})
+    return {
+        "label": "EXPLORATION (impl vs impl on nested / struct-valued disjuncts; not a proof, not tied to the Coq model)",
+        "exploration_expressions": rep.get("expressions", 0),
+        "exploration_distinct_expressions": rep.get("distinct_expressions", 0),
+        "exploration_variants": rep.get("variants", 0),
+        "shapes": {k: feats.get(k, 0) for k in ("nested-marked", "dup-outer-inner", "struct-with-disjunction-field",
+                                                 "list-with-disjunction", "via-reference")},
+        "features": feats,
+        "rearrangement_kinds": rep.get("rearrangement_kinds", {}),
+        "outcomes": rep.get("outcomes", {}),
+        "probes_avg": rep.get("probes_avg"),
+        "not_evaluated": rep.get("not_evaluated", 0),
+        "disagreements": rep.get("disagreement_count", 0),
+        "excluded_class_unmerged_equal_disjuncts": rep.get("unmerged_equal_disjuncts"),
+        "F18_witness_pairs": f18,
+        "F19_witness_pairs": f19,
+        "wall_s": secs,
+        "samples": (rep.get("samples") or [])[:2],
+        "relations_used": "C04_disjunct_order_independent, C04_duplicate_disjunct, C04_weaker_copy_irrelevant, "
+                          "C04_failed_disjunct_irrelevant (never operand order of &: F2; never re-association of marked groups: O-nested)",
+        "excluded_classes": "F18(a): an evaluated disjunction holding two disjuncts equal up to the order of a nested disjunction "
+                            "(recognised on the evaluated value; then only acceptance is compared); F18(b): marks inside fields "
+                            "of struct/list disjuncts that have a twin of the same shape (not generated)",
+    }
+
+
 MANIFEST = {
     "category": "proof",
     "text": "Coq theorems about the order-free value/default semantics of Core/Disj.v (survivors of the cross product, effectively marked disjunctions, defaults, resolution): acceptance is the union over disjuncts distributed over &; a resolution is the unique default or else the unique value and always the value of a surviving choice (never silently chosen); failed disjuncts (marked or not) and duplicates do not change values, default flags or resolution; a choice's value does not depend on operand order; the spec's table rows and the order-free answer for the F2 witness are checked Examples. Tied to cue by exact agreement of resolution, chosen value and atom acceptance on generated expressions outside the model-computed fold-sensitive class; inside that class (known finding F2: cue's left fold is order dependent) the implementation's answer must still be ambiguity or one of the surviving values with identical acceptance.",
-    "note": "cue's crossProduct fold is not modelled (no Impl layer): F2 instances are recognised by the predicate fold_sensitive (late elimination of all marked disjuncts of a disjunction, or conflicting defaults) computed by the model. Disjunct structs use regular fields only (known finding F9 concerns optional fields). Permutation invariance of the whole value/default pair under reordering of the disjunctions is checked by the harness, not yet a theorem (tuple-level order-freeness is).",
+    "note": "cue's crossProduct fold is not modelled (no Impl layer): F2 instances are recognised by the predicate fold_sensitive (late elimination of all marked disjuncts of a disjunction, or conflicting defaults) computed by the model. Disjunct structs use regular fields only (known finding F9 concerns optional fields). Permutation invariance of the whole value/default pair under reordering of the disjunctions is checked by the harness, not yet a theorem (tuple-level order-freeness is). An additional EXPLORATION stream (mode c04x, harness/core/disjx.go; impl vs impl, no model) compares expressions with parenthesised nested disjunctions (unmarked outer, marked inner; also reached through a reference), struct/list disjuncts whose fields/elements are disjunctions, and an optional plain operand with 6 rearrangements each that the theorems C04_disjunct_order_independent / C04_duplicate_disjunct / C04_weaker_copy_irrelevant / C04_failed_disjunct_irrelevant say preserve the outcome (never operand order of &, never re-association of marked groups), observing the resolution after iterating Default(), Validate(Concrete), the sorted set of disjuncts of the evaluated value and in-language acceptance of probe atoms/structs/lists. It sets aside the class of finding F18 (struct/list disjuncts equal up to the order or the default marks of a nested disjunction are merged depending on disjunct order); the witness pairs of F18 and of F19 (disjuncts dropped when a second disjunction operand follows; outside the generated fragment) are evaluated on every run and reported as KNOWN-FINDING only while they disagree and the id is listed.",
     "technique": "Coq proof about an order-free spec model of defaults + extracted-model differential check with model-side classification of the known order-dependence",
 }
